@@ -153,11 +153,12 @@ def body_clip_grid(ctx, conv, shape, holes, buffer):
     hits = [ctx.bool(f'hit{n}') if has_poly[n] else False for n in range(ny * nx)]
     # does the geometry cover the whole dataset?  if so it intersects every cell that has a polygon
     covers_all = ctx.bool('covers_all')
-    ctx.assume(Implies(covers_all, And(*[hits[n] for n in range(ny * nx) if has_poly[n]])))
+    areal = ctx.bool('areal')            # polygons / boxes, or points / lines
+    ctx.assume(Implies(covers_all, And(areal, *[hits[n] for n in range(ny * nx) if has_poly[n]])))
     if ctx.symbolic:
         tree = geo.StubTree(polygons, {n: hits[n] for n in range(ny * nx) if has_poly[n]})
         convention.__dict__['strtree'] = tree
-        clips = [geo.SymClip(polygons, hits, covers_all)]
+        clips = [geo.SymClip(polygons, hits, covers_all, areal)]
     elif covers_all:
         clips = [geo.covering_geometry(polygons)]
     else:
@@ -165,6 +166,7 @@ def body_clip_grid(ctx, conv, shape, holes, buffer):
         clips = geo.realise_hits(polygons, [n for n in range(ny * nx) if has_poly[n] and hits[n]])
         everything = geo.covering_geometry(polygons).buffer(-1.0)
         clips = [c for c in clips if not c.covers(everything)] or clips
+        clips = geo.of_dimension(clips, areal)
     for clip in clips:
         _check_clip_grid(ctx, conv, shape, convention, clip, buffer, hits, tree if ctx.symbolic else None)
 
@@ -235,17 +237,19 @@ def body_clip_mesh(ctx, mesh, variant, buffer, via):
 
     if via == 'make_clip_mask':
         covers_all = ctx.bool('covers_all')
-        ctx.assume(Implies(covers_all, len(chosen) == nf))
+        areal = ctx.bool('areal')
+        ctx.assume(Implies(covers_all, And(areal, len(chosen) == nf)))
         if ctx.symbolic:
             tree = geo.StubTree(convention.polygons, {f: SymBool(f in chosen) for f in range(nf)})
             convention.__dict__['strtree'] = tree
-            clips = [geo.SymClip(convention.polygons, [f in chosen for f in range(nf)], covers_all)]
+            clips = [geo.SymClip(convention.polygons, [f in chosen for f in range(nf)], covers_all, areal)]
         elif covers_all:
             clips = [geo.covering_geometry(convention.polygons)]
         else:
             clips = geo.realise_hits(convention.polygons, chosen)
             everything = geo.covering_geometry(convention.polygons).buffer(-1.0)
             clips = [c for c in clips if not c.covers(everything)] or clips
+            clips = geo.of_dimension(clips, areal)
         for clip in clips:
             mask = convention.make_clip_mask(clip, buffer=buffer)
             _check_mesh_mask(ctx, mask, via, variant, nodes, faces, expected, topology)
